@@ -10,6 +10,7 @@ import Rivaas.Gen.ChainFacts
 import Rivaas.Model.Chain
 import Rivaas.Model.Timeout
 
+set_option maxRecDepth 100000
 namespace Rivaas.Tie.C10Chain
 open Rivaas.Gen.ChainFacts
 
@@ -74,7 +75,8 @@ theorem timeout_handler_shape :
        "_8 := make(chan struct{})", "_9 := make(chan any, 1)",
        "go {", "defer {", "_10 := recover()", "if _10 != nil {", "_9 <- _10", "}", "close(_8)", "}", "_2.Next()", "}",
        "select {", "case <-_8 {", "}", "case <-_3.Done() {",
-       "if errors.Is(_3.Err(), context.DeadlineExceeded) {", "_11 = _7.timeout()", "if _11 {",
+       "if errors.Is(_3.Err(), context.DeadlineExceeded) {", "if _1.logger != nil {", "_1.logger.Warn(\"request timeout\", \"method\", _6.Request.Method, \"path\", _6.Request.URL.Path, \"timeout\", _1.duration.String(), )", "}",
+       "_11 = _7.timeout()", "if _11 {",
        "_1.handler(&_6, _1.duration)", "}", "}", "<-_8", "}", "}",
        "if !_11 {", "_2.Response = _5", "}",
        "select {", "case _12 := <-_9 {", "panic(_12)", "}", "}"] := by decide
@@ -90,12 +92,14 @@ theorem timeout_goroutine_shape :
     isInfix ["go {", "defer {", "_10 := recover()", "if _10 != nil {", "_9 <- _10", "}", "close(_8)", "}", "_2.Next()", "}"]
       timeout_handler = true := by decide
 
-/-- thread R at the `select`: two arms, `<-done` and `<-ctx.Done()`; in the second the timeout handler runs only
-    under `DeadlineExceeded` and only if `tw.timeout()` claimed the response, on the copied context; the arm ends
-    with `<-done` on every path (`stepR .select`: `.thandler` / `.waitDone`, never `.returned`) -/
+/-- thread R at the `select`: two arms, `<-done` and `<-ctx.Done()`; in the second, under `DeadlineExceeded`, the
+    timeout is logged FIRST (`RPc.logging`, reading the request from the copied context), THEN `tw.timeout()` decides
+    atomically, and the timeout handler runs only if it claimed the response, on the copied context; the arm ends
+    with `<-done` on every path (`stepR .select` / `.logging`: `.thandler` / `.waitDone`, never `.returned`) -/
 theorem timeout_select_shape :
     isInfix ["select {", "case <-_8 {", "}", "case <-_3.Done() {",
-       "if errors.Is(_3.Err(), context.DeadlineExceeded) {", "_11 = _7.timeout()", "if _11 {",
+       "if errors.Is(_3.Err(), context.DeadlineExceeded) {", "if _1.logger != nil {", "_1.logger.Warn(\"request timeout\", \"method\", _6.Request.Method, \"path\", _6.Request.URL.Path, \"timeout\", _1.duration.String(), )", "}",
+       "_11 = _7.timeout()", "if _11 {",
        "_1.handler(&_6, _1.duration)", "}", "}", "<-_8", "}", "}"] timeout_handler = true := by decide
 
 /-- after the select: the real writer comes back unless the request timed out, then the panic is re-raised
